@@ -210,18 +210,25 @@ def replay(ob, tests, tag, profile_release=False):
                 fh.write(t["src"])
             fh.write("}\n")
         env = {"CARGO_TARGET_DIR": os.path.join(SCRATCH, "k", ob.crate + "_playback"), "RUST_BACKTRACE": "0"}
-        cmd = "cargo kani playback -Z concrete-playback %s -- verif_playback --test-threads 1" % crate_flags(ob.crate)
-        rc, out, dt, to = run(cmd, cwd=os.path.join(work, ob.crate), timeout=900, env=env)
+        # one process per test: the symbolic kernel keeps its state in statics
         for t in tests:
-            m = re.search(r"test \S*%s \.\.\. (\w+)" % re.escape(t["fn"] or "?"), out)
-            st = m.group(1) if m else "?"
+            cmd = ("cargo kani playback -Z concrete-playback %s -- %s --nocapture --test-threads 1"
+                   % (crate_flags(ob.crate), t["fn"]))
+            rc, out, dt, to = run(cmd, cwd=os.path.join(work, ob.crate), timeout=900, env=env)
+            if re.search(r"test result: FAILED\. 0 passed; 1 failed", out):
+                st = "FAILED"
+            elif re.search(r"test result: ok\. 1 passed", out):
+                st = "ok"
+            else:
+                st = "?"
             msg = ""
-            pm = re.search(r"---- \S*%s stdout ----\n(.*?)(?:\n\n|\nstack backtrace)" % re.escape(t["fn"] or "?"), out, re.S)
+            pm = re.search(r"(thread '[^\n]*panicked at [^\n]*\n[^\n]*)", out)
             if pm:
                 msg = pm.group(1).strip().replace("\n", " | ")[:400]
-            results.append((t, st == "FAILED", msg if msg else ("test result: " + st)))
-        if not results or all(r[2].endswith("?") for r in results):
-            results = [(t, False, "playback did not run: " + out[-600:]) for t in tests]
+            hist = "\n".join(l for l in out.splitlines() if l.startswith(("descriptor table:", "  call ", "trace:")))
+            if hist:
+                msg += "\n" + hist[:3000]
+            results.append((t, st == "FAILED", msg if msg else ("test result: %s; tail: %s" % (st, out[-300:]))))
     finally:
         shutil.rmtree(work, ignore_errors=True)
     return results
